@@ -296,6 +296,22 @@ def shared_service_scenario(draw, conf):
     return ev
 
 
+def crowd_events(draw):
+    """A crowd: a few hundred clients announced in ascending (or descending) id order and all still pending, then
+    traffic for the ones announced first (the request index must still find them, at the first attempt)."""
+    n = draw(st.sampled_from([70, 140, 300]))
+    ids = list(range(1, n + 1))
+    if draw(st.booleans()):
+        ids.reverse()
+    ev = [["C", cid, "10.0.%d.%d" % (cid // 250, cid % 250), 1000 + cid] for cid in ids]
+    for cid in ids[:3] + ids[-2:]:
+        ev += [["N", cid, "h%d.example.org" % cid], ["u", cid, "id%d" % cid], ["n", cid, "N%d" % cid], ["U", cid, "user", "real"]]
+        ev.append([draw(st.sampled_from(["D", "T", "H"])), cid])
+    for cid in ids[3:40]:
+        ev.append(["D", cid])
+    return ev
+
+
 def table_growth_scenario(draw, conf):
     """A reload adds a service whose name sorts before (or between) the configured ones while a client is half-way
     through its registration: some services have been queried already, others are still waiting for data.  (Per-client
@@ -346,6 +362,8 @@ def history_s(draw, pid, tier, conf=None, max_clients=None, distinct_ids=False, 
     if pid in ("C02", "C03", "C05") and 1 <= len(conf["services"]) <= 5 and any(s_[1] in ("login", "login-ipr", "combined") for s_ in conf["services"]) \
             and "iauth_xquery" in conf["modules"] and draw(st.integers(0, 13)) == 0:
         return {"conf": conf, "events": shared_service_scenario(draw, conf)}
+    if pid in ("C03", "C06", "C01") and draw(st.integers(0, 59)) == 0:
+        return {"conf": conf, "events": crowd_events(draw)}
     if pid in ("C02", "C03", "C06") and 1 <= len(conf["services"]) <= 4 and "iauth_xquery" in conf["modules"] and draw(st.integers(0, 15)) == 0:
         return {"conf": conf, "events": table_growth_scenario(draw, conf)}
     big = tier == "thorough"
@@ -663,20 +681,7 @@ def c10_s(draw, pid, tier):
     if k == 0:
         return draw(timer_s(pid, tier))
     if k == 3:
-        # a crowd: a few hundred clients announced in ascending (or descending) id order and all still pending, then
-        # traffic for the ones announced first (the request index must still find them)
-        conf = draw(conf_s(pid, tier))
-        n = draw(st.sampled_from([70, 140, 300]))
-        ids = list(range(1, n + 1))
-        if draw(st.booleans()):
-            ids.reverse()
-        ev = [["C", cid, "10.0.%d.%d" % (cid // 250, cid % 250), 1000 + cid] for cid in ids]
-        for cid in ids[:3] + ids[-2:]:
-            ev += [["N", cid, "h%d.example.org" % cid], ["u", cid, "id%d" % cid], ["n", cid, "N%d" % cid], ["U", cid, "user", "real"]]
-            ev.append([draw(st.sampled_from(["D", "T", "H"])), cid])
-        for cid in ids[3:40]:
-            ev.append(["D", cid])
-        return {"conf": conf, "events": ev}
+        return {"conf": draw(conf_s(pid, tier)), "events": crowd_events(draw)}
     base = draw(history_s(pid, tier))
     if k in (1, 2):
         # a long history: the generated block repeated R times on shifting (and recurring) ids,
